@@ -563,6 +563,11 @@ class C13(Prop):
                 "Dataset.__init__": d.Dataset.__init__, "Dataset.axes.setter": d.Dataset.axes.fset, "Dataset.copy": d.Dataset.copy}
 
     def gen(self, rng, tier):
+        # minimised past false alarm (thorough sweep, seed 29): the FIRST step of a history from the empty dataset is the axes
+        # setter - every axis it brings is "appended directly" although there is no previous state to compare with
+        yield {"op": "ds_history", "ops": [{"op": "axes_setter", "axes": [
+            {"name": "x", "kind": "O", "labels": [], "fresh": True}, {"name": "v", "kind": "i", "labels": [["n", 5, 1]], "fresh": False},
+            {"name": "t", "kind": "f", "labels": [["n", 13, 2], ["n", 39, 4]], "fresh": False}]}]}
         n = 650 if tier == "quick" else 14000
         for _ in range(n):
             start, ops = gen_history(rng, from_ctor=rng.random() < 0.3)
@@ -926,8 +931,9 @@ class C13(Prop):
             usedd = set(d for v in o["vars"].values() for d in v)
             if t == "append_axis" and ok:
                 direct.add(op["name"])
-            if t == "axes_setter" and ok and prev is not None:
-                direct |= set(a["name"] for a in op["axes"] if a["name"] not in prev["dims"])
+            if t == "axes_setter" and ok:
+                # (a history that starts from the EMPTY dataset has no previous state: every axis it is given is appended directly)
+                direct |= set(a["name"] for a in op["axes"] if a["name"] not in (prev["dims"] if prev is not None else ()))
             if t in FAMILY_RENAME and ok and prev is not None and len(prev["dims"]) == len(o["dims"]) and "copy" not in o:
                 ren = dict(zip(prev["dims"], o["dims"]))
                 direct = set(ren.get(d, d) for d in direct)
